@@ -125,6 +125,11 @@ let validate (pts : bool) (prefix : act list) (later : act list list) (progs : a
     match snd (next x) with
     | Some _ when pts && not passed.(x) -> passed.(x) <- true; eager x; skip_point x
     | _ -> () in
+  (* a thread may have run silently past a point the implementation does not have (no instrumented call
+     on that path): before giving up on an observer mismatch release all pending points and compare again;
+     a point the implementation does pass later is then rejected at its own line *)
+  let check_obs w =
+    try check_obs w with Reject _ -> (for x = 0 to nthreads - 1 do skip_point x done; check_obs w) in
   let need x k what =
     skip_point x;
     if blocked x then rej "T%d performs %s but the model is held before loop() is entered / has returned / a callback starts" x what;
@@ -166,7 +171,7 @@ let validate (pts : bool) (prefix : act list) (later : act list list) (progs : a
              if not pts then rej "point %s in a run without points" obj;
              (match snd (next x) with Some p when p <> obj && not passed.(x) -> skip_point x | _ -> ());
              (match snd (next x) with
-              | Some p when p = obj && not passed.(x) -> passed.(x) <- true
+              | Some p when p = obj -> passed.(x) <- true
               | _ -> rej "T%d is at point %s, the model's thread is not" x obj);
              check_obs obs; eager x
          | "write" when obj = !wakefd ->
